@@ -75,6 +75,13 @@ CLAIMED['C11'] = dict(
          'index and both slice bounds over all of isize; the cycle constructor rejects an empty base.',
     note='Trusted: num-bigint contract, eager in-order evaluation of the iterator adaptors inside the kernels. Outside: lazy map/filter/zip/iterate adaptors (call the evaluator), counts beyond usize, Repeat, constructor builtins other than cycle.',
     design='§7 C11', technique='symbolic execution of rustc MIR + SMT (z3); one-step induction over stream states')
+CLAIMED['C16'] = dict(
+    text='Bounded symbolic model checking of the real MIR of decimal::parse_decimal_exactly / parse_rational_exactly / apply_exp10 on texts `[sign] digits [. digits] [e [sign] digits]` and `p/q` '
+         'with symbolic digits (value == the exact rational the text spells; rejection only for texts that spell no number or exceed the documented exponent cap; no panic for 10-digit exponents), '
+         'of the str_radix / int_radix closures (positional notation for every n < base^3 in both representations and signs, digit-string decoding, round trip) and of the NInt formatting impls '
+         '(same formatter and value for Small(n) and Big(n)).',
+    note='Partial: covers noulith\'s own codec code. Trusted/outside: base64, gzip, serde_json, UTF-8, std float parsing/printing, digit generation of the std/num formatters, longer digit strings, non-ASCII text.',
+    design='§7 C15/C16', technique='symbolic execution of rustc MIR + SMT (z3) over symbolic digit strings')
 NOT_APPLICABLE = {
  'C13': 'sequence library vs executable specification: the deciding content is std collections glued by one-line closures over whole sequences; not encodable as a bounded solver query over noulith code (DESIGN §9); parts decided under C08/C09/C10/C11/C14',
  'C17': 'freeze: semantic equivalence of two recursive traversals over programs; a bounded solver query cannot carry it (DESIGN §9)',
